@@ -1,7 +1,8 @@
 // C48: drive simgrid::config of the freshly built libsimgrid.  Every case runs in a forked child (callbacks may abort).
 //   mode dump: print help() and show_aliases() after Engine initialisation (all registered items and aliases)
-//   mode lib : line = via tycode nlen name.. vlen value..   (via 0 set_as_string, 1 set_parse("name:value"))
-//              -> "<outcome> B <value before> A <value after>", outcome 0 ok | 2 exception | 4 abort/signal
+//   every line of modes lib/ops starts with a flag: 1 = run this case in a forked child (it may end the process), 0 = in-process
+//   mode lib : line = flag via tycode nlen name.. vlen value..   (via 0 set_as_string, 1 set_parse("name:value"))
+//              -> "<outcome> B <value before> A <value after> W <what()>", outcome 0 ok | 1 unknown name | 2 exception | 4 abort/signal
 //   mode ops : line = ops on the test table (see run_c48_ops in Xbt/Config.v): kind nlen name.. slen text..
 //              -> "<code per op> D <dump of the test items: value, callback count>"
 // value encoding: 1 z | 2 m e | 3 neg | 4 | 5 b | 6 len codes..
@@ -84,9 +85,23 @@ static std::string in_child(const std::function<void(int)>& f, bool& normal)
   normal = WIFEXITED(status) && WEXITSTATUS(status) == 0;
   return out;
 }
+static std::string direct_out; // in-process cases append here instead of writing to the pipe (fd < 0)
 static void emit(int fd, const std::string& s)
 {
-  if (write(fd, s.data(), s.size()) < 0) { /* nothing to do */ }
+  if (fd < 0)
+    direct_out += s;
+  else if (write(fd, s.data(), s.size()) < 0) { /* nothing to do */ }
+}
+// cases that cannot end the process (the generator knows: unparsable texts, unknown names, no token without ':') run
+// in-process; the others in a forked child
+static std::string run_case(bool use_fork, const std::function<void(int)>& f, bool& normal)
+{
+  if (use_fork)
+    return in_child(f, normal);
+  direct_out.clear();
+  normal = true;
+  f(-1);
+  return direct_out;
 }
 
 // ---- the test table (mirrored by test_cfg / test_valid in Xbt/Config.v)
@@ -134,23 +149,35 @@ int main(int argc, char** argv)
     bool normal;
     if (mode == "lib") {
       size_t i         = 0;
+      bool use_fork    = v.at(i++) != 0;
       int via          = (int)v.at(i++);
       int ty           = (int)v.at(i++);
       std::string name = take_str(v, i);
       std::string val  = take_str(v, i);
-      std::string out  = in_child(
+      std::string out  = run_case(
+          use_fork,
           [&](int fd) {
-            std::string before = read_back(name, ty);
+            std::string before;
+            try {
+              before = read_back(name, ty);
+            } catch (const std::out_of_range&) {
+              emit(fd, "1");
+              return;
+            }
             int outcome        = 0;
+            std::string what;
             try {
               if (via == 0)
                 cfg::set_as_string(name.c_str(), val);
               else
                 cfg::set_parse(name + ":" + val);
-            } catch (const std::exception&) {
+            } catch (const std::exception& e) {
               outcome = 2;
+              what    = e.what();
+              if (what.size() > 40)
+                what.resize(40);
             }
-            emit(fd, std::to_string(outcome) + " B " + before + " A " + read_back(name, ty));
+            emit(fd, std::to_string(outcome) + " B " + before + " A " + read_back(name, ty) + " W " + enc_string(what));
           },
           normal);
       if (normal)
@@ -158,10 +185,15 @@ int main(int argc, char** argv)
       else
         printf("4\n");
     } else { // ops
-      std::string out = in_child(
+      bool use_fork   = v.at(0) != 0;
+      std::string out = run_case(
+          use_fork,
           [&](int fd) {
+            cfg::finalize(); // fresh table for every case: only the test items
+            for (int& c : n_calls)
+              c = 0;
             declare_test_table();
-            size_t i = 0;
+            size_t i = 1;
             while (i < v.size()) {
               int kind         = (int)v.at(i++);
               std::string name = take_str(v, i);
@@ -197,6 +229,8 @@ int main(int argc, char** argv)
                 code = 2;
               } catch (const std::domain_error&) {
                 code = 3;
+              } catch (const std::exception&) {
+                code = 5;
               }
               emit(fd, std::to_string(code) + " ");
             }
